@@ -6,6 +6,7 @@ CONSTANTS
   MaxLong = 2
   MaxShort = 0
   MaxSnap = 1
+  StableUpTo = 20
 INVARIANTS TypeOK Strict DerivedOK
 PROPERTIES SeqIsLast SnapshotReplaces UpdatePointwise
 VIEW View
